@@ -883,9 +883,20 @@ class QuicConnection:
 
             # Server initialization.
             if not self._is_client and self._state == QuicConnectionState.FIRSTFLIGHT:
-                assert header.packet_type == QuicPacketType.INITIAL, (
-                    "first packet must be INITIAL"
-                )
+                if header.packet_type != QuicPacketType.INITIAL:
+                    # No packet has been decrypted yet (e.g. the INITIAL packet
+                    # preceding this one failed authentication): only an INITIAL
+                    # packet can start the connection, drop anything else.
+                    if self._quic_logger is not None:
+                        self._quic_logger.log_event(
+                            category="transport",
+                            event="packet_dropped",
+                            data={
+                                "trigger": "unexpected_packet",
+                                "raw": {"length": header.packet_length},
+                            },
+                        )
+                    return
                 crypto_frame_required = True
                 self._network_paths = [network_path]
                 self._version = header.version
